@@ -675,6 +675,17 @@ func (r *SimReader) Read(p []byte) (int, error) {
 	return n, nil
 }
 
+// Left reports how many stored bytes have not been handed over yet.
+func (r *SimReader) Left() int { return len(r.Data) - r.off }
+
+// NextN reports the size the script gives the next read (0: whatever is asked for).
+func (r *SimReader) NextN() int {
+	if r.si < len(r.Script) {
+		return r.Script[r.si].N
+	}
+	return 0
+}
+
 // ---------------------------------------------------------------- SimDisk
 
 var ErrDisk = errors.New("simio: disk write failed (torn write)")
